@@ -5,7 +5,7 @@ from vlib.run import *
 ALPHA40 = 'abcdefghijklmnopqrstuvwxyz0123456789_-$ '
 
 def gen_names(rng, n):
-    comps = ['a', 'b', 'name', 'ssn', '', 'x' * 60, 'é', '中文', '\U0001F600', 'A', 'a b', '$', 'a$b', '_id', '0', 'user_id', 'Zq1qZ']
+    comps = ['104233', '2024', '00', 'a', 'b', 'name', 'ssn', '', 'x' * 60, 'é', '中文', '\U0001F600', 'A', 'a b', '$', 'a$b', '_id', '0', 'user_id', 'Zq1qZ']
     out = []
     for _ in range(n):
         k = rng.randint(1, 4)
